@@ -18,6 +18,29 @@ from fractions import Fraction
 M = 'Model.C06'
 
 
+def canon_src(fn):
+    """source text of a function with its LOCAL names (assigned inside the body, not parameters) renamed v0, v1, ... in order
+    of first assignment, docstrings and comments dropped: recognisers that compare text are then blind to renamed locals"""
+    import copy
+    fn = copy.deepcopy(fn)
+    params = {a.arg for a in fn.args.args}
+    order = []
+    for n in ast.walk(fn):
+        pass
+    class V(ast.NodeVisitor):
+        def visit_Name(self, n):
+            if isinstance(n.ctx, ast.Store) and n.id not in params and n.id not in order:
+                order.append(n.id)
+    for st in fn.body:          # statement order = assignment order
+        V().visit(st)
+    ren = {nm: f'v{k}' for k, nm in enumerate(order)}
+    for n in ast.walk(fn):
+        if isinstance(n, ast.Name) and n.id in ren:
+            n.id = ren[n.id]
+    fn.body = [st for st in fn.body if not (isinstance(st, ast.Expr) and isinstance(st.value, ast.Constant) and isinstance(st.value.value, str))]
+    return ast.unparse(fn)
+
+
 def fact3(g, name, source, node_fn, check):
     """a structural fact with three outcomes: check() -> True / False (positively recognised) or None
     (shape of the source not recognised: recorded as untranslatable, the hand model is assumed and the
@@ -474,6 +497,10 @@ def babinet_items(g, pr):
                     and ast.unparse(n.body[0]) in ('lyot = np.conj(lyot)', 'lyot = lyot.conj()'):
                 conj_lyot = True
         cbar_form = 'cbar = dbar * lyot' in src_b and 'dbar = self.data' in src_b
+        # without a Lyot stop the upstream gradient passes unchanged: `else: cbar = dbar`
+        none_branch = any(isinstance(n, ast.If) and ast.unparse(n.test) == 'lyot is not None' and len(n.orelse) == 1
+                          and ast.unparse(n.orelse[0]) == 'cbar = dbar' for n in ast.walk(bk))
+        cbar_form = cbar_form and none_branch
         # the adjoint of to_fpm_and_back is applied to cbar, with the same arguments as the forward call
         calls = find_calls(bk, 'cbarW.to_fpm_and_back_backprop')
         fcalls = find_calls(fwd, 'self.to_fpm_and_back')
@@ -856,27 +883,30 @@ def activation_items(g, ac):
         if r[0] != 'v':
             raise Untranslatable('Softmax.backprop does not return an array')
         subs_ok = all(sl in ('(:, np.newaxis)', ':, np.newaxis') for _, sl in t.subscripts)
-        fwd = get_def(ac, 'Softmax.forward')
-        fsrc = ast.unparse(fwd)
-        fwd_ok = ('xnorm = xx - xx.max(axis=1)[:, np.newaxis]' in fsrc and 'e_x = np.exp(xnorm)' in fsrc
-                  and 'norm = e_x.sum(axis=1)' in fsrc and 'self.out = e_x / norm[:, np.newaxis]' in fsrc
-                  and 'xx = x.reshape((-1, x.shape[-1]))' in fsrc)
-        if not (subs_ok and fwd_ok):
-            raise Untranslatable('Softmax.forward / broadcasting in backprop not in the recognised shape')
+        fsrc = canon_src(get_def(ac, 'Softmax.forward'))
+        fwd_ok = all(k in fsrc for k in ('v0 = x.reshape((-1, x.shape[-1]))', 'v1 = v0 - v0.max(axis=1)[:, np.newaxis]',
+                                         'v2 = np.exp(v1)', 'v3 = v2.sum(axis=1)', 'self.out = v2 / v3[:, np.newaxis]'))
+        if not subs_ok:
+            raise Untranslatable('broadcasting in Softmax.backprop not in the recognised shape')
+        softmax.fwd_ok = fwd_ok
         return (f'def softmaxBack {PAR} (n : Nat) (s g : Nat → K) : Nat → K :=\n{t.prefix()}  fun i => {r[1]}\n'
-                f'def softmaxBackBroadcastsOverLevels : Bool := {"true" if subs_ok else "false"}\n'
-                f'def softmaxFwdIsExpOverSumAlongLastAxis : Bool := {"true" if fwd_ok else "false"}\n')
-    g.item('Softmax', 'prysm/x/optym/activation.py:Softmax', lambda: get_def(ac, 'Softmax'), softmax,
+                f'def softmaxBackBroadcastsOverLevels : Bool := true\n')
+    g.item('Softmax.backprop', 'prysm/x/optym/activation.py:Softmax.backprop', lambda: get_def(ac, 'Softmax.backprop'), softmax,
            f'def softmaxBack {PAR} (n : Nat) (s g : Nat → K) : Nat → K := {M}.softmaxBack n s g\n'
-           'def softmaxBackBroadcastsOverLevels : Bool := true\ndef softmaxFwdIsExpOverSumAlongLastAxis : Bool := true\n')
+           'def softmaxBackBroadcastsOverLevels : Bool := true\n')
+    # the forward shape is its own (three-valued) item: an unrecognised forward no longer hides the backprop translation
+    fact3(g, 'softmaxFwdIsExpOverSumAlongLastAxis', 'prysm/x/optym/activation.py:Softmax.forward',
+          lambda: get_def(ac, 'Softmax.forward'), lambda: True if getattr(softmax, 'fwd_ok', False) else None)
 
     def gumbel():
         fn = get_def(ac, 'GumbelSoftmax.backprop')
         t = VecTr({'protograd': ('v', '(g i)'), 'self.tau': ('s', 'tau')},
                   funcs={'self.smax.backprop': lambda a: ('v', f'(softmaxBack n s (fun i => {a[0][1]}) i)')})
         (r,) = t.run(fn.body)
-        fsrc = ast.unparse(get_def(ac, 'GumbelSoftmax.forward'))
-        fwd_ok = 'y = x + g' in fsrc and 'yy = y / self.tau' in fsrc and 'return self.smax.forward(yy)' in fsrc
+        fsrc = canon_src(get_def(ac, 'GumbelSoftmax.forward'))
+        import re as _re
+        m_ = _re.search(r'(v\d+) = x \+ (v\d+)\n\s*(v\d+) = \1 / self\.tau\n\s*return self\.smax\.forward\(\3\)', fsrc)
+        fwd_ok = m_ is not None
         if not fwd_ok:
             raise Untranslatable('GumbelSoftmax.forward not in the recognised shape')
         return (f'def gumbelBack {PAR} (tau : K) (n : Nat) (s g : Nat → K) : Nat → K :=\n{t.prefix()}  fun i => {r[1]}\n'
@@ -894,9 +924,9 @@ def activation_items(g, ac):
         gsubs = [sl for base, sl in t.subscripts if base == 'grad']
         last = gsubs == ['(..., None)'] or gsubs == ['..., None'] or gsubs == ['(..., np.newaxis)'] or gsubs == ['..., np.newaxis']
         lsubs = [sl for base, sl in t.subscripts if base == 'levels']
-        fsrc = ast.unparse(get_def(ac, 'DiscreteEncoder.forward'))
-        fwd_ok = ('samples = self.est.forward(x)' in fsrc and 'tmp = samples * expanded_levels' in fsrc
-                  and 'return tmp.sum(axis=-1)' in fsrc and 'expanded_levels = levels[None, :]' in fsrc)
+        fsrc = canon_src(get_def(ac, 'DiscreteEncoder.forward'))
+        fwd_ok = all(k in fsrc for k in ('v0 = self.levels', 'v1 = v0[None, :]', 'v2 = self.est.forward(x)', 'v3 = v2 * v1',
+                                         'return v3.sum(axis=-1)'))
         second = gsubs in (['(:, None)'], [':, None'], ['(:, np.newaxis)'], [':, np.newaxis'])
         if not (fwd_ok and (last or second) and lsubs in (['(None, :)'], ['None, :'])):
             raise Untranslatable('DiscreteEncoder not in the recognised shape')
@@ -981,103 +1011,160 @@ def wavefront_items(g, pr):
         r = t.ev(ret)
         if r[0] != 'r':
             raise Untranslatable('phase gradient is not real')
-        # the wavenumber: forward uses exp(1j * 2 * pi / wavelength / 1e3 * phase); backprop k = 2 pi / wavelength / 1e3
-        kb = ast.unparse(find_assign(fn, 'k'))
+        # the wavenumber, TRANSLATED from both sides: forward exp((1j * kf) * phase), backprop k
         ff = get_def(pr, 'Wavefront.from_amp_and_phase')
-        pf = ast.unparse(find_assign(ff, 'phase_prefix'))
         Pf = ast.unparse(find_assign(ff, 'P', which=0))
-        same_k = (kb == '2 * np.pi / self.wavelength / 1000.0' and pf == '1j * 2 * np.pi / wavelength / 1000.0'
-                  and Pf == 'amplitude * np.exp(phase_prefix * phase)')
-        if not same_k:
-            raise Untranslatable('wavenumber expressions not in the recognised shape')
+        if Pf != 'amplitude * np.exp(phase_prefix * phase)':
+            raise Untranslatable('forward is not amplitude * exp(phase_prefix * phase)')
+        pf = find_assign(ff, 'phase_prefix')
+        # strip exactly one factor 1j from the product / quotient chain
+        found = []
+
+        class Strip(ast.NodeTransformer):
+            def visit_Constant(self, n):
+                if isinstance(n.value, complex) and n.value == 1j:
+                    found.append(1)
+                    return ast.copy_location(ast.Constant(value=1), n)
+                return n
+        import copy
+        pf_real = Strip().visit(copy.deepcopy(pf))
+        if len(found) != 1:
+            raise Untranslatable('phase_prefix does not contain exactly one factor 1j')
+        for n in ast.walk(pf_real):
+            if isinstance(n, ast.BinOp) and not isinstance(n.op, (ast.Mult, ast.Div)):
+                raise Untranslatable('phase_prefix is not a product / quotient')
+        kf = Tr({'np.pi': 'pi', 'wavelength': 'wavelength'}, mode='num').expr(pf_real)
+        kb = Tr({'np.pi': 'pi', 'self.wavelength': 'wavelength'}, mode='num').expr(find_assign(fn, 'k'))
         return (f'def phaseBack {PAR} (k : K) (gbar g : Cx K) : K := {r[1]}\n'
-                f'def phaseBackUsesForwardWavenumber : Bool := {"true" if same_k else "false"}\n')
+                f'def phaseFwdK {PAR} (pi wavelength : K) : K := {kf}\n'
+                f'def phaseBackK {PAR} (pi wavelength : K) : K := {kb}\n')
     g.item('Wavefront.from_amp_and_phase_backprop_phase', 'prysm/propagation.py:Wavefront.from_amp_and_phase_backprop_phase',
            lambda: get_def(pr, 'Wavefront.from_amp_and_phase_backprop_phase'), phase,
-           f'def phaseBack {PAR} (k : K) (gbar g : Cx K) : K := {M}.phaseBack k gbar g\ndef phaseBackUsesForwardWavenumber : Bool := true\n')
+           f'def phaseBack {PAR} (k : K) (gbar g : Cx K) : K := {M}.phaseBack k gbar g\n'
+           f'def phaseFwdK {PAR} (pi wavelength : K) : K := pi\ndef phaseBackK {PAR} (pi wavelength : K) : K := pi\n')
 
 
 def structural_items(g, ft, po, dm):
-    def mdft_fact(bk, fwd, fwdflag, samples_param, assoc):
-        try:
-            b = get_def(ft, f'MatrixDFTExecutor.{bk}')
-            f = get_def(ft, f'MatrixDFTExecutor.{fwd}')
-            kb = ast.unparse(find_assign(b, 'key'))
-            kf = ast.unparse(find_assign(f, 'key'))
-            out_b = ast.unparse(find_assign(b, 'out'))
-            out_f = ast.unparse(find_assign(f, 'out'))
-            cto, cti = ast.unparse(find_assign(b, 'Eout_conj_t')), ast.unparse(find_assign(b, 'Ein_conj_t'))
-            bases = all(ast.unparse(find_assign(x, 'Eout')) == 'self.Eout[key]' and ast.unparse(find_assign(x, 'Ein')) == 'self.Ein[key]' for x in (b, f))
-        except Untranslatable:
-            return None
-        want_b = f'self._key(samples_in={samples_param}, Q=Q, samples_out=fbar.shape, shift=shift, fwd={fwdflag})'
-        want_f = f'self._key(samples_in=ary.shape, Q=Q, samples_out=samples_out, shift=shift, fwd={fwdflag})'
-        if not (bases and kf == want_f and out_f == assoc and [ast.unparse(r) for r in find_returns(b)] == ['out']):
-            return None
-        # recognised frame; now the three things that decide adjointness
-        if out_b not in ('Eout_conj_t @ (fbar @ Ein_conj_t)', 'Eout_conj_t @ fbar @ Ein_conj_t'):
-            return False if out_b.replace('_conj_t', '').replace('(', '').replace(')', '') in ('Eout @ fbar @ Ein',) or 'conj_t' in out_b else None
-        if (cto, cti) != ('Eout.T.conj()', 'Ein.T.conj()'):
-            return False if {cto, cti} <= {'Eout.T.conj()', 'Ein.T.conj()', 'Eout.T', 'Ein.T', 'Eout.conj()', 'Ein.conj()', 'Eout', 'Ein'} else None
-        if kb != want_b:
-            import re
-            m = re.fullmatch(r'self\._key\(samples_in=(\w+), Q=Q, samples_out=([\w.]+), shift=shift, fwd=(\w+)\)', kb)
-            return False if m else None
-        return True
-    fact3(g, 'dft2BackpropIsConjTransposeOfSameBases', 'prysm/fttools.py:MatrixDFTExecutor.dft2_backprop',
-          lambda: get_def(ft, 'MatrixDFTExecutor.dft2_backprop'),
-          lambda: mdft_fact('dft2_backprop', 'dft2', 'True', 'samples_in', 'Eout @ ary @ Ein'))
-    fact3(g, 'idft2BackpropIsConjTransposeOfSameBases', 'prysm/fttools.py:MatrixDFTExecutor.idft2_backprop',
-          lambda: get_def(ft, 'MatrixDFTExecutor.idft2_backprop'),
-          lambda: mdft_fact('idft2_backprop', 'idft2', 'False', 'samples_out', 'Eout @ (ary @ Ein)'))
+    # ---- sum_of_2d_modes(_backprop): which axes np.tensordot contracts, as (axis of modes, axis of the other operand) pairs
+    def tensordot_axes(call, nd_a, nd_b):
+        ax = call_arg(call, 2, 'axes')
+        if ax is None:
+            k = 2
+        else:
+            try:
+                v = ast.literal_eval(ax)
+            except Exception:
+                raise Untranslatable(f'axes={ast.unparse(ax)}')
+            if isinstance(v, int):
+                k = v
+            else:
+                a_, b_ = v
+                a_ = [a_] if isinstance(a_, int) else list(a_)
+                b_ = [b_] if isinstance(b_, int) else list(b_)
+                if len(a_) != len(b_):
+                    raise Untranslatable('axes lengths')
+                return [(x % nd_a, y % nd_b) for x, y in zip(a_, b_)]
+        return [(nd_a - k + t, t) for t in range(k)]
 
     def modes():
         f = get_def(po, 'sum_of_2d_modes')
         b = get_def(po, 'sum_of_2d_modes_backprop')
-        if [ast.unparse(r) for r in find_returns(f)] != ['np.tensordot(modes, weights, axes=(0, 0))']:
-            return None
-        rb = [ast.unparse(r) for r in find_returns(b)]
-        if rb in (['np.tensordot(modes, databar)'], ['np.tensordot(modes, databar, axes=2)']):
-            return True
-        if len(rb) == 1 and rb[0].startswith('np.tensordot(modes, databar, axes='):
-            return False
-        return None
-    fact3(g, 'modalBackContractsBothImageAxes', 'prysm/polynomials/__init__.py:sum_of_2d_modes_backprop',
-          lambda: get_def(po, 'sum_of_2d_modes_backprop'), modes)
+        (rf,), (rb,) = find_returns(f), find_returns(b)
+        for r_ in (rf, rb):
+            if not (isinstance(r_, ast.Call) and ast.unparse(r_.func) == 'np.tensordot' and ast.unparse(r_.args[0]) == 'modes'):
+                raise Untranslatable('not np.tensordot(modes, ...)')
+        if ast.unparse(rf.args[1]) != 'weights' or ast.unparse(rb.args[1]) != 'databar':
+            raise Untranslatable('second operand')
+        fa = tensordot_axes(rf, 3, 1)
+        ba = tensordot_axes(rb, 3, 2)
+        fmt = lambda l: '[' + ', '.join(f'({x}, {y})' for x, y in l) + ']'
+        return (f'def modalFwdAxes : List (Nat × Nat) := {fmt(fa)}\n'
+                f'def modalBackAxes : List (Nat × Nat) := {fmt(ba)}\n')
+    g.item('sum_of_2d_modes_backprop', 'prysm/polynomials/__init__.py:sum_of_2d_modes_backprop',
+           lambda: get_def(po, 'sum_of_2d_modes_backprop'), modes,
+           'def modalFwdAxes : List (Nat × Nat) := [(0, 0)]\ndef modalBackAxes : List (Nat × Nat) := [(1, 0), (2, 1)]\n')
 
-    def dm_seq():
-        """render_backprop applies the adjoints of render's steps in reverse order (no rotation):
-        render:  scatter -> transfer functions -> [wfe scale] -> resample -> pad/crop"""
-        rn, bn = get_def(dm, 'DM.render'), get_def(dm, 'DM.render_backprop')
-        r, b = ast.unparse(rn), ast.unparse(bn)
+    # ---- DM.render / DM.render_backprop: the ordered list of array operations each performs
+    def steps(fn, var):
+        out = []
 
-        def order(src, keys):
-            pos = [src.find(k) for k in keys]
-            return all(p >= 0 for p in pos) and pos == sorted(pos)
-        fwd = order(r, ['self.poke_arr[self.iyy, self.ixx] = self.actuators',
-                        'apply_transfer_functions(self.poke_arr, None, self.tf, shift=False)',
-                        'warped *= 2 * self.obliquity',
-                        'fourier_resample(warped, self.upsample)',
-                        'self.Nintermediate = warped.shape',
-                        'pad2d(warped, out_shape=self.Nout)',
-                        'crop_center(warped, out_shape=self.Nout)'])
-        if not fwd:
+        def data_call(node):
+            """(tag) of a recognised operation applied to the running array, or None"""
+            if not isinstance(node, ast.Call):
+                return None
+            f = ast.unparse(node.func)
+            a = [ast.unparse(x) for x in node.args]
+            kw = {k.arg: ast.unparse(k.value) for k in node.keywords}
+            if f == 'apply_transfer_functions' and len(a) >= 3 and kw.get('shift', a[7] if len(a) > 7 else 'False') == 'False':
+                return {'self.tf': 'filter', 'np.conj(self.tf)': 'filter_conj', 'np.conjugate(self.tf)': 'filter_conj'}.get(a[2])
+            if f == 'warp' and len(a) == 3:
+                return {('self.projx', 'self.projy'): 'warp_proj', ('self.invprojx', 'self.invprojy'): 'warp_invproj'}.get((a[1], a[2]))
+            if f == 'fourier_resample' and len(a) == 2:
+                return 'resample' if a[1] == 'self.upsample' else None
+            if f == 'fourier_resample_backprop' and len(a) == 3 and a[1] == 'self.upsample':
+                return 'resample_adj'
+            if f in ('pad2d', 'crop_center'):
+                return 'resize'
             return None
-        # positively wrong shapes of the companion
-        atf = find_calls(bn, 'apply_transfer_functions')
-        if len(atf) == 1 and len(atf[0].args) >= 3 and ast.unparse(atf[0].args[2]) == 'self.tf':
-            return False                      # transfer function not conjugated
-        if find_calls(bn, 'fourier_resample'):
-            return False                      # resampling by the reciprocal zoom is not the adjoint
-        bwd = order(b, ['crop_center(protograd, out_shape=self.Nintermediate)',
-                        'pad2d(protograd, out_shape=self.Nintermediate)',
-                        'fourier_resample_backprop(protograd, self.upsample, self.ifn.shape)',
-                        '2 * self.obliquity',
-                        'apply_transfer_functions(protograd, None, np.conj(self.tf), shift=False)',
-                        'return in_actuator_space[self.iyy, self.ixx]'])
-        return True if bwd else None
-    fact3(g, 'dmBackpropReversesRenderSteps', 'prysm/x/dm.py:DM.render_backprop',
-          lambda: get_def(dm, 'DM.render_backprop'), dm_seq)
+
+        def is_scale(v):
+            return v.replace(' ', '') in ('2*self.obliquity', '(2*self.obliquity)')
+
+        def walk(stmts):
+            for st in stmts:
+                if isinstance(st, ast.Expr) and isinstance(st.value, ast.Constant):
+                    continue
+                if isinstance(st, ast.If):
+                    walk(st.body)
+                    walk(st.orelse)
+                    continue
+                if isinstance(st, ast.Assign) and len(st.targets) == 1:
+                    tgt, val = st.targets[0], st.value
+                    ut = ast.unparse(tgt)
+                    if ut == 'self.poke_arr[self.iyy, self.ixx]' and ast.unparse(val) == 'self.actuators':
+                        out.append('scatter')
+                        continue
+                    if ut == 'self.Nintermediate' or (isinstance(tgt, ast.Name) and tgt.id == 'upsample'):
+                        continue
+                    if isinstance(tgt, ast.Name) and tgt.id in var:
+                        tag = data_call(val)
+                        if tag is None and isinstance(val, ast.BinOp) and isinstance(val.op, ast.Mult) \
+                                and ast.unparse(val.left) in var and is_scale(ast.unparse(val.right)):
+                            tag = 'scale'
+                        if tag is None and isinstance(val, ast.Name) and val.id in var:
+                            continue
+                        if tag is None:
+                            raise Untranslatable(f'unrecognised operation on the data: {ast.unparse(st)[:70]}')
+                        if tag == 'resize' and out and out[-1] == 'resize':
+                            continue          # pad / crop are the two branches of one step
+                        out.append(tag)
+                        continue
+                    raise Untranslatable(f'statement {ast.unparse(st)[:70]}')
+                if isinstance(st, ast.AugAssign) and isinstance(st.target, ast.Name) and st.target.id in var:
+                    if isinstance(st.op, ast.Mult) and is_scale(ast.unparse(st.value)):
+                        out.append('scale')
+                        continue
+                    raise Untranslatable(f'unrecognised operation on the data: {ast.unparse(st)[:70]}')
+                if isinstance(st, ast.Return):
+                    v = st.value
+                    if isinstance(v, ast.Subscript) and ast.unparse(v.slice) in ('(self.iyy, self.ixx)', 'self.iyy, self.ixx') \
+                            and ast.unparse(v.value) in var:
+                        out.append('gather')
+                    elif not (isinstance(v, ast.Name) and v.id in var):
+                        raise Untranslatable(f'return {ast.unparse(v)[:60]}')
+                    continue
+                raise Untranslatable(f'statement {ast.unparse(st)[:70]}')
+        walk(fn.body)
+        return out
+
+    def dm_steps():
+        fs = steps(get_def(dm, 'DM.render'), {'sfe', 'warped'})
+        bs = steps(get_def(dm, 'DM.render_backprop'), {'protograd', 'in_actuator_space'})
+        fmt = lambda l: '[' + ', '.join(f'"{x}"' for x in l) + ']'
+        return f'def dmRenderSteps : List String := {fmt(fs)}\ndef dmBackSteps : List String := {fmt(bs)}\n'
+    g.item('DM.render_backprop', 'prysm/x/dm.py:DM.render_backprop', lambda: get_def(dm, 'DM.render_backprop'), dm_steps,
+           'def dmRenderSteps : List String := ["scatter", "filter", "warp_proj", "scale", "resample", "resize"]\n'
+           'def dmBackSteps : List String := ["resize", "resample_adj", "scale", "warp_invproj", "filter_conj", "gather"]\n')
 
 
 def padcrop_items(g, repo):
@@ -1142,6 +1229,109 @@ def live_attribute_items(g, ac, dm):
           lambda: check(dm, 'DM', 'render', 'render_backprop', allow=('invprojx', 'invprojy', 'ifn')))
 
 
+# ------------------------------------------------------------------------------------------------
+# matrix expressions (MatrixDFTExecutor): `@`, `.T`, `.conj()` over named matrices with symbolic extents
+# ------------------------------------------------------------------------------------------------
+class MatTr:
+    """values: (lean term : Mat C, (rows, cols), pending) with pending in {'', 'T', 'conj'} for a bare transpose / conjugate
+    that may still combine into conjT"""
+
+    def __init__(self, env):
+        self.env = dict(env)
+
+    def ev(self, e):
+        key = ast.unparse(e)
+        if key in self.env:
+            return self.env[key]
+        if isinstance(e, ast.Attribute) and e.attr == 'T':
+            t, (r, c) = self.ev(e.value)
+            return (f'(fun i j => {t} j i)', (c, r))
+        if isinstance(e, ast.Call) and isinstance(e.func, ast.Attribute) and e.func.attr in ('conj', 'conjugate') and not e.args:
+            t, shp = self.ev(e.func.value)
+            return (f'(fun i j => conj ({t} i j))', shp)
+        if isinstance(e, ast.Call) and ast.unparse(e.func) in ('np.conj', 'np.conjugate') and len(e.args) == 1:
+            t, shp = self.ev(e.args[0])
+            return (f'(fun i j => conj ({t} i j))', shp)
+        if isinstance(e, ast.BinOp) and isinstance(e.op, ast.MatMult):
+            (a, (ra, ca)), (b, (rb, cb)) = self.ev(e.left), self.ev(e.right)
+            if ca != rb:
+                raise Untranslatable(f'inner extents differ in {key}: {ca} vs {rb}')
+            return (f'({M}.matmul {ca} {a} {b})', (ra, cb))
+        raise Untranslatable(f'matrix expression {key[:60]}')
+
+    def run(self, fn, skip=()):
+        """straight-line body: local assignments of matrix expressions; returns the value of the returned name"""
+        for st in fn.body:
+            if isinstance(st, ast.Expr) and isinstance(st.value, ast.Constant):
+                continue
+            if isinstance(st, ast.Expr) and isinstance(st.value, ast.Call) and ast.unparse(st.value.func) == 'self._setup_bases':
+                continue
+            if isinstance(st, ast.Assign) and len(st.targets) == 1:
+                tgt = st.targets[0]
+                if isinstance(tgt, ast.Name) and tgt.id in skip:
+                    continue
+                if isinstance(tgt, ast.Tuple) and ast.unparse(tgt) == '(Eout, Ein)' \
+                        and ast.unparse(st.value) == '(self.Eout[key], self.Ein[key])':
+                    continue            # the cached bases of `key`
+                if isinstance(tgt, ast.Name):
+                    self.env[tgt.id] = self.ev(st.value)
+                    continue
+            if isinstance(st, ast.Return):
+                return self.ev(st.value)
+            raise Untranslatable(f'statement {ast.unparse(st)[:60]}')
+        raise Untranslatable('no return')
+
+
+def mdft_term_items(g, ft):
+    HDR = '{C : Type} [Num C]'
+
+    def key_of(fn, subst):
+        """the `_key(...)` call bound to the signature order, each argument rewritten through `subst`"""
+        call = find_assign(fn, 'key')
+        if not (isinstance(call, ast.Call) and ast.unparse(call.func) == 'self._key'):
+            raise Untranslatable('key is not self._key(...)')
+        sig = [a.arg for a in get_def(ft, 'MatrixDFTExecutor._key').args.args[1:]]
+        bound = {}
+        for k_, a in zip(sig, call.args):
+            bound[k_] = ast.unparse(a)
+        for kw in call.keywords:
+            bound[kw.arg] = ast.unparse(kw.value)
+        if set(bound) != set(sig):
+            raise Untranslatable('key arguments')
+        out = []
+        for k_ in sig:
+            v = bound[k_]
+            if v not in subst:
+                raise Untranslatable(f'key argument {k_}={v}')
+            out.append(subst[v])
+        return '(' + ', '.join(out) + ')', sig
+
+    specs = [('dft2', 'dft2_backprop', 'samples_in'), ('idft2', 'idft2_backprop', 'samples_out')]
+    for fwd, bwd, sparam in specs:
+        def build(fwd=fwd, bwd=bwd, sparam=sparam):
+            f = get_def(ft, f'MatrixDFTExecutor.{fwd}')
+            b = get_def(ft, f'MatrixDFTExecutor.{bwd}')
+            tf, shp_f = MatTr({'Eout': ('Eout', ('M', 'm')), 'Ein': ('Ein', ('n', 'N')), 'ary': ('f', ('m', 'n'))}).run(f, skip=('key',))
+            tb, shp_b = MatTr({'Eout': ('Eout', ('M', 'm')), 'Ein': ('Ein', ('n', 'N')), 'fbar': ('y', ('M', 'N'))}).run(b, skip=('key',))
+            if shp_f != ('M', 'N') or shp_b != ('m', 'n'):
+                raise Untranslatable(f'result extents {shp_f} / {shp_b}')
+            base = {'Q': 'Q', 'shift': 'shift', 'True': 'true', 'False': 'false'}
+            kf, sig = key_of(f, {**base, 'ary.shape': 'a', 'samples_out': 'b'})
+            kb, _ = key_of(b, {**base, sparam: 'a', 'fbar.shape': 'b'})
+            kt = '{T : Type} (Q shift : T) (a b : Nat × Nat)'
+            return (f'def {fwd}FwdTerm {HDR} (M m n N : Nat) (Eout f Ein : {M}.Mat C) : {M}.Mat C := {tf}\n'
+                    f'def {fwd}BackTerm {HDR} (conj : C → C) (M m n N : Nat) (Eout y Ein : {M}.Mat C) : {M}.Mat C := {tb}\n'
+                    f'def {fwd}FwdKey {kt} := {kf}\n'
+                    f'def {fwd}BackKey {kt} := {kb}\n')
+        fb_f = f'{M}.{fwd} M m n N Eout f Ein'
+        g.item(f'MatrixDFTExecutor.{bwd}', f'prysm/fttools.py:MatrixDFTExecutor.{bwd}',
+               lambda bwd=bwd: get_def(ft, f'MatrixDFTExecutor.{bwd}'), build,
+               f'def {fwd}FwdTerm {HDR} (M m n N : Nat) (Eout f Ein : {M}.Mat C) : {M}.Mat C := {fb_f}\n'
+               f'def {fwd}BackTerm {HDR} (conj : C → C) (M m n N : Nat) (Eout y Ein : {M}.Mat C) : {M}.Mat C := {M}.dftBack conj M m n N Eout y Ein\n'
+               f'def {fwd}FwdKey {{T : Type}} (Q shift : T) (a b : Nat × Nat) := (a, Q, b, shift, {"true" if fwd == "dft2" else "false"})\n'
+               f'def {fwd}BackKey {{T : Type}} (Q shift : T) (a b : Nat × Nat) := (a, Q, b, shift, {"true" if fwd == "dft2" else "false"})\n')
+
+
 def generate(repo):
     g = Gen('C06', imports=['PrysmVerif.PyPrelude', 'PrysmVerif.Model.C06'],
             header='set_option linter.unusedVariables false')
@@ -1160,6 +1350,7 @@ def generate(repo):
     po, _ = load(repo, 'prysm/polynomials/__init__.py')
     dm, _ = load(repo, 'prysm/x/dm.py')
     structural_items(g, ft, po, dm)
+    mdft_term_items(g, ft)
     padcrop_items(g, repo)
     live_attribute_items(g, ac, dm)
     return g.finish()
